@@ -97,6 +97,8 @@ func ratOf(v any) (*big.Rat, bool) {
 	case float64:
 		r := new(big.Rat).SetFloat64(x)
 		return r, r != nil
+	case *big.Rat:
+		return x, true
 	}
 	return nil, false
 }
@@ -131,7 +133,7 @@ func (o *Oracle) EqConst(v any, inst Inst) *smt.Term {
 		return inst.TagIs(sx.TagNull)
 	case bool:
 		return c.And(inst.TagIs(sx.TagBool), c.Eq(inst.Bool(), c.Bool(x)))
-	case json.Number, float64:
+	case json.Number, float64, *big.Rat:
 		r, ok := ratOf(x)
 		if !ok {
 			o.fail("unrepresentable number constant %v", x)
